@@ -41,6 +41,16 @@ check("C09", "model_checking",
       "(empty selections, truncated BC/RBC) are listed in known_findings.json.",
       "exhaustive enumeration of the space-option lattice on small meshes against a reference model of the spaces")
 
+check("C10", "exploration",
+      "Exhaustive over a finite alphabet: for every mesh of the list, every primal kind with a barycentric representation, "
+      "whole-grid/segment/element selections and all option combinations, EVERY unit coefficient vector is compared pointwise "
+      "(7 points) on EVERY one of the 6 sub-triangles of every support element; the sub-triangle-to-coarse map is solved from "
+      "geometry so the 6e+j tables are under test. DUAL1 nodal values at every barycentric node; 8 primal/dual mass matrices "
+      "against an exact degree-4 rule. Linearity makes unit vectors equal to all coefficient vectors.",
+      "DESIGN.md 4/C10",
+      "Trusted: barycentric grid geometry (checked by C11), numpy least squares for the affine map.",
+      "exhaustive enumeration (mesh x space x element x sub-triangle x unit vector) against geometry-derived reference")
+
 ALL = ["C%02d" % i for i in range(1, 21)]
 
 
